@@ -131,14 +131,13 @@ pub fn no_effect_relation(rel: Relation, h: &History, st: &mut Stats) -> TestRes
         None
     };
     if let Some((i, xa, xb)) = first_difference(&base, &ctl) {
-        // confirm on fresh agent instances (other map orders): a difference that moves or vanishes
-        // is order-dependent behaviour of the agent, which this relation cannot attribute
-        for _ in 0..3 {
-            let again = (run(h, Some(&clock))?, run(&control, Some(&clock))?);
-            let same = match again {
-                (Some((b2, _)), Some((c2, _))) => first_difference(&b2, &c2).map(|d| d.0) == Some(i),
-                _ => false,
-            };
+        // confirm on fresh agent instances (every instance has its own map order): both the history and
+        // its control must reproduce themselves exactly, twelve times each; behaviour that varies
+        // between instances is order dependence of the agent, which this relation cannot attribute
+        for _ in 0..12 {
+            let b2 = run(h, Some(&clock))?;
+            let c2 = run(&control, Some(&clock))?;
+            let same = matches!((&b2, &c2), (Some((b2, _)), Some((c2, _))) if *b2 == base && *c2 == ctl);
             if !same {
                 st.class("difference not reproducible across agent instances (order-dependent; not judged by this relation)");
                 return Ok(());
